@@ -183,6 +183,7 @@ def _c18(tier):
             R('anyid_laws_nostorage', 0, 0, _AI % ('EmptyAnyStorage', laws)),
             R('anyid_laws_nostorage_d128', 0, 0, _AI % ('EmptyAnyStorage', laws) + '; the Digester returns a 128-bit digest (wider than size_t), both halves symbolic', {'DIGW': 128}),
             R('anyid_laws_typedstorage_freedig', 3, 0, _AI % ('Storage with NEITHER == nor < that is constructible from any type and has a type() member (std::any-like)', laws) + '; digest not a function of the stored value: values of different stored types may share a digest and are then the same id', {'FREEDIG': None}),
+            R('anyid_laws_foreignstorage', 4, 0, _AI % ('value storage of a foreign namespace whose == and < are declared by the application at GLOBAL scope before the library headers (found by ordinary lookup only, not by ADL)', laws)),
             R('anyid_laws_anystorage', 2, 0, _AI % ('value storage constructible from a value of ANY type (std::any-like), with == and <', laws)),
             BmcRun('anyid_laws_cbmc', 'anyid_kernel.cpp', 'anyid_laws.c', bounds='E-bmc cross-check: the real operator==, operator< and std::hash<AnyId> (both storages) lowered by clang, translated IR->C, and 15 laws over three ids decided by CBMC in one merged formula: fully symbolic 64-bit digests and 32-bit values, no loops (unwind 4 with unwinding assertions)'),
             R('anyid_map_anystorage', 2, 1, _AI % ('value storage constructible from any type', 'std::map dispatcher: 3 registered ids, dispatch by a 4th') + reg + how(1), dv(1), budget_s=900),
@@ -196,11 +197,11 @@ PROPS['C18'] = Prop(
     assumptions=['Digester is a functional stub (arbitrary 64-bit digest per distinct value); unordered_map bucket growth is the model in support/stdsupport.cpp'])
 
 _AD = ('AnyData<%d> (effective capacity %d): stored types = trivially copyable structs of 1, 2, 8, cap-1, cap, cap+1, cap+9 bytes with fully symbolic contents; ledger-tracked copyable and move-only '
-       'structs of 9, cap-1, cap, cap+1, cap+9 bytes; shared_ptr<int>; constructed from lvalue / const lvalue / rvalue; chain of <= 2 moves; EventQueue round trip with slot reuse')
+       'structs of 9, cap-1, cap, cap+1, cap+9 bytes; shared_ptr<int>; a type with an initializer_list constructor whose element type is constructible from the type itself; constructed from lvalue / const lvalue / rvalue; chain of <= 2 moves; EventQueue round trip with slot reuse')
 PROPS['C17'] = Prop(
-    quick=[Run('anydata_m16', 'anydata.cpp', {'MM': 16}, covers=8, bounds=_AD % (16, 16)),
-           Run('anydata_m1', 'anydata.cpp', {'MM': 1}, covers=8, bounds=_AD % (1, 16)),
-           Run('anydata_m24', 'anydata.cpp', {'MM': 24}, covers=8, bounds=_AD % (24, 24))],
+    quick=[Run('anydata_m16', 'anydata.cpp', {'MM': 16}, covers=9, native=('gxx-O0-san', 'gxx-O2', 'clang-O1'), bounds=_AD % (16, 16)),
+           Run('anydata_m1', 'anydata.cpp', {'MM': 1}, covers=9, native=('gxx-O0-san', 'gxx-O2', 'clang-O1'), bounds=_AD % (1, 16)),
+           Run('anydata_m24', 'anydata.cpp', {'MM': 24}, covers=9, native=('gxx-O0-san', 'gxx-O2', 'clang-O1'), bounds=_AD % (24, 24))],
     outside='stored sizes other than the listed ones (sizes are compile-time: enumerated by template instantiation, not symbolic); chains of more than 2 moves; types with alignment > 8',
     assumptions=['type identity is checked against the instantiated set of types only'])
 
